@@ -133,6 +133,39 @@ PAIRS['SCH3'] = ("""<schema extends="x1.xml x2.xml x3.xml">
     'x3.xml': """<schema keytype="identifier"><key name="K3" default="3"/></schema>""",
 })
 
+# the same '.'-relative names under different effective prefixes in ONE document
+PAIRS['PFX2'] = ("""<schema prefix="vf">
+ <sectiontype name="ta" prefix=".dtsupport" datatype=".wrap"><key name="ka" datatype=".counted_int" default="1"/></sectiontype>
+ <sectiontype name="tb" prefix=".dtalt" datatype=".wrap"><key name="ka" datatype=".counted_int" default="2"/></sectiontype>
+ <sectiontype name="tc" prefix="vf.dtalt"><key name="kc" datatype=".counted_int"/><key name="kd" datatype="vf.dtsupport.counted_int"/></sectiontype>
+ <key name="kx" datatype=".dtsupport.counted_int"/>
+ <key name="ky" datatype=".dtalt.counted_int"/>
+ <multisection type="ta" name="*" attribute="as"/>
+ <section type="tb" name="*" attribute="sb"/>
+ <section type="tc" name="*" attribute="sc"/>
+</schema>""", """<schema>
+ <sectiontype name="ta" datatype="vf.dtsupport.wrap"><key name="ka" datatype="vf.dtsupport.counted_int" default="1"/></sectiontype>
+ <sectiontype name="tb" datatype="vf.dtalt.wrap"><key name="ka" datatype="vf.dtalt.counted_int" default="2"/></sectiontype>
+ <sectiontype name="tc"><key name="kc" datatype="vf.dtalt.counted_int"/><key name="kd" datatype="vf.dtsupport.counted_int"/></sectiontype>
+ <key name="kx" datatype="vf.dtsupport.counted_int"/>
+ <key name="ky" datatype="vf.dtalt.counted_int"/>
+ <multisection type="ta" name="*" attribute="as"/>
+ <section type="tb" name="*" attribute="sb"/>
+ <section type="tc" name="*" attribute="sc"/>
+</schema>""", {})
+
+# components that import each other (and one that imports itself)
+PAIRS['CYC'] = ("""<schema>
+ <import package="vfpk_d"/>
+ <multisection type="ad" name="*" attribute="xs"/>
+</schema>""", """<schema>
+ <abstracttype name="ad"/>
+ <sectiontype name="td" implements="ad"><key name="kd"/></sectiontype>
+ <sectiontype name="te" implements="ad"><key name="ke" datatype="integer" default="0"/></sectiontype>
+ <sectiontype name="tf" extends="td" implements="ad"><key name="kf"/></sectiontype>
+ <multisection type="ad" name="*" attribute="xs"/>
+</schema>""", {})
+
 PAIRS['CMP'] = ("""<schema>
  <import package="vfpk_a"/>
  <import package="vfpk_b"/>
@@ -152,6 +185,14 @@ PAIRS['CMP'] = ("""<schema>
 </schema>""", {})
 
 PKGS = {
+    'vfpk_d': """<component><abstracttype name="ad"/>
+ <sectiontype name="td" implements="ad"><key name="kd"/></sectiontype>
+ <import package="vfpk_e"/></component>""",
+    'vfpk_e': """<component><import package="vfpk_d"/><import package="vfpk_e"/>
+ <sectiontype name="te" implements="ad"><key name="ke" datatype="integer" default="0"/></sectiontype>
+ <import package="vfpk_f"/></component>""",
+    'vfpk_f': """<component><import package="vfpk_e"/>
+ <sectiontype name="tf" extends="td" implements="ad"><key name="kf"/></sectiontype></component>""",
     'vfpk_c': """<component><abstracttype name="ac"/>
  <sectiontype name="tc" implements="ac"><key name="kc" datatype="integer" default="0"/></sectiontype></component>""",
     'vfpk_a': """<component><import package="vfpk_c"/>
